@@ -115,6 +115,8 @@ class G:
         return self.fmt(k[0], k[1], host)
 
     def val(self):
+        if getattr(self, 'randval', False):
+            return self.r.randint(0, 99)
         self.nval += 1
         return self.nval
 
@@ -585,6 +587,49 @@ def prof_bulk(g):
         set_step(g)
 
 
+def prof_retain(g):
+    """C10: retain with (pseudo-)random subsets on dense small tries, followed by re-insertion"""
+    g.band = g.r.choice([3, 3, 4])
+    g.randval = True
+    n = g.r.randint(3, 14)
+    for _ in range(n):
+        k = g.rand_key() if g.r.random() < 0.8 else g.pick('A', 0.2, 0.6)
+        g.emit('ins A %s %d' % (g.p(k), g.val()))
+        g.maps['A'][k] = 1
+    for _ in range(g.r.randint(0, 2)):
+        g.op_remove('A', g.r.choice(['remk', 'rem']))
+    for _ in range(g.r.randint(1, 3)):
+        g.emit('obs A')
+        r = g.r.random()
+        if r < 0.55:
+            name = g.r.choice(['even', 'odd'])
+        else:
+            name, _ = g.pred('A')
+        g.emit('retain A %s -' % name)
+        g.emit('obs A')
+        g.emit('shape A')
+        g.emit('arena A')
+        for _ in range(g.r.randint(2, 5)):
+            k = g.rand_key()
+            g.emit('ins A %s %d' % (g.p(k), g.val()))
+            g.emit('obs A')
+        for k in g.queries('A', 3)[:6]:
+            g.emit('q A %s' % g.p(k))
+    # the set twin on the same kind of shapes
+    for _ in range(g.r.randint(0, 8)):
+        k = g.rand_key()
+        g.emit('sins %s' % g.p(k))
+    if g.r.random() < 0.5:
+        name = 'even'
+        while name in ('even', 'odd'):
+            name, _ = g.pred('T')
+        g.emit('sretain %s' % name)
+        g.emit('sobs')
+        g.emit('sins %s' % g.p(g.rand_key()))
+        g.emit('sins %s' % g.p(g.rand_key()))
+        g.emit('sobs')
+
+
 def prof_views(g):
     """views: dump + walk over navigations (C11, C12)"""
     g.build('A', g.r.randint(2, 25))
@@ -843,7 +888,7 @@ def prof_alg(g):
 PROFILES = {
     'hist': prof_c01, 'queries': prof_queries, 'iters': prof_iters, 'count': prof_count,
     'count_nov': prof_count_nov, 'setops': prof_setops, 'setops_mut': prof_setops_mut,
-    'bulk': prof_bulk, 'views': prof_views, 'find': prof_find, 'muttrav': prof_muttrav,
+    'bulk': prof_bulk, 'retain': prof_retain, 'views': prof_views, 'find': prof_find, 'muttrav': prof_muttrav,
     'shape': prof_shape, 'arena': prof_arena, 'churn': prof_churn, 'hostbits': prof_hostbits,
     'eq': prof_eq, 'panic': prof_panic, 'known': prof_known, 'alg': prof_alg,
 }
